@@ -53,7 +53,7 @@ def run(ctx):
     required = ["fact_sweep_threshold", "fact_transaction_helper_shape", "fact_rollback_deletes_created_did",
                 "fact_nuts_not_found_is_uncommitted", "fact_web_commit_cannot_fail", "fact_version_is_latest_plus_one",
                 "fact_sweep_handles_whole_transaction", "fact_deactivation_renders_as_published", "fact_rollback_loop_wiring", "fact_method_manager_wiring",
-                "fact_latest_is_highest_version", "fact_create_checks_subject_inside_transaction", "fact_change_records_saved_inside_first_transaction", "old_iscommitted_blocks_sweep", "old_rollback_blocks_retry", "old_sweep_splits_transaction"]
+                "fact_latest_is_highest_version", "fact_create_checks_subject_inside_transaction", "fact_change_records_saved_inside_first_transaction", "fact_create_or_update_always_inserts", "old_iscommitted_blocks_sweep", "old_rollback_blocks_retry", "old_sweep_splits_transaction"]
     required += REQUIRED_DEEP
     for r in required:
         if not any(t.endswith("Props." + r) for t in thms):
@@ -165,14 +165,36 @@ def run(ctx):
                 report("C13:list-exists-inconsistent", f"event {k}: {o[4]}", w)
         # documented assumption: no update is applied to a deactivated subject (didnuts skips the publication silently,
         # SQL and network differ from then on). Such worlds are still compared with the model, but not judged.
-        off = False
+        off_from = len(obs)
         for k, (op, o) in enumerate(zip(w["ops"], obs)):
             if op["op"] == "do" and op["kind"] in ("addsvc", "updsvc", "delsvc", "addkey") and o[0] == "ok" and k > 0:
                 before = obs[k - 1][3].get(op["subj"], {"dids": []})
                 if any(d[4] == "deact" for d in before["dids"]):
-                    off = True
+                    off_from = min(off_from, k)
+        off = off_from < len(obs)
+        # P5/P6 (judged up to the first off-assumption event): an operation that completed with an ERROR leaves every DID exactly as it
+        # was; no completed operation removes a stored version or a DID ("failed operation leaves every DID at its previous
+        # version", "stored versions only grow")
+        def full(o):
+            return {s: ([(d[0], d[1], tuple(d[2]), d[3], d[4], d[5]) for d in v["dids"]], v["err"]) for s, v in o[3].items()}
+        for k in range(1, off_from):
+            op, o = w["ops"][k], obs[k]
+            if op["op"] != "do" or o[0] == "stopped" or o[0] == "hang" or o[0].startswith("panic:"):
+                continue
+            fb, fa = full(obs[k - 1]), full(o)
+            if o[0].startswith("err:"):
+                changed = [s for s in fa if fa[s] != fb.get(s, ([], "err:nosubject"))]
+                if changed:
+                    s0 = changed[0]
+                    report("C13:failed-operation-changed-the-documents", f"event {k} ({op['kind']} -> {o[0]}): subject {s0} before {fb.get(s0)} after {fa[s0]}", w)
+            for s0, (dids_b, _) in fb.items():
+                after = {d[1]: d for d in fa.get(s0, ([], None))[0]}
+                for d in dids_b:
+                    if d[1] not in after or not set(d[2]) <= set(after[d[1]][2]):
+                        report("C13:stored-version-removed-by-an-operation", f"event {k} ({op['kind']} -> {o[0]}): {d[0]}:d{d[1]} had versions {list(d[2])}, now "
+                               f"{list(after[d[1]][2]) if d[1] in after else 'gone'}", w)
         if off:
-            stats["world:update-on-deactivated-subject(not judged)"] += 1
+            stats["world:update-on-deactivated-subject(judged up to it)"] += 1
             continue
         # P1: a successful operation is visible on EVERY DID of the subject (the "together" half), through Resolve and FindServices
         for k, (op, o) in enumerate(zip(w["ops"], obs)):
@@ -407,4 +429,5 @@ REQUIRED_DEEP = ["uniform_versions", "versions_consecutive", "versions_consecuti
                  "failed_commit_restores", "retry_enabled", "cfgNow_fixed", "stopped_operation_resolved",
                  "abandoned_keys_unpublished_partial", "abandoned_keys_unpublished",
                  "create_check_and_write_are_one_step", "non_atomic_create_breaks_subject_unique",
-                 "first_transaction_is_atomic", "versions_without_change_records_are_never_rolled_back"]
+                 "first_transaction_is_atomic", "versions_without_change_records_are_never_rolled_back",
+                 "change_records_name_new_versions"]
